@@ -271,6 +271,230 @@ def _ast_twin(src, kind):
                 return ast.Assign([node.target], ast.BinOp(load, node.op, node.value))
             return node
 
+    def guard_clauses(fn):
+        # the last statement of a function body / loop body is `if C: BODY` without else:
+        #     if not C: return (continue)
+        #     BODY
+        def rewrite(body, jump):
+            last = body[-1] if body else None
+            if isinstance(last, ast.If) and not last.orelse and len(last.body) >= 2 and \
+                    not any(isinstance(x, (ast.FunctionDef, ast.ClassDef)) for x in last.body):
+                body[-1:] = [ast.If(ast.UnaryOp(ast.Not(), last.test), [jump()], [])] + last.body
+        for n in ast.walk(fn):
+            if isinstance(n, (ast.For, ast.While)) and not n.orelse:
+                rewrite(n.body, ast.Continue)
+        if not any(isinstance(x, ast.Return) and x.value is not None for x in ast.walk(fn)):
+            rewrite(fn.body, lambda: ast.Return(None))
+
+    def with_to_acquire(body):
+        out = []
+        for st in body:
+            if isinstance(st, ast.With) and len(st.items) == 1 and st.items[0].optional_vars is None and \
+                    isinstance(st.items[0].context_expr, (ast.Name, ast.Attribute)) and \
+                    any(k in ast.unparse(st.items[0].context_expr).lower() for k in ('lock', 'mutex', 'cond', 'notempty')):
+                import copy as _copy
+                x = st.items[0].context_expr
+                out.append(ast.Expr(ast.Call(ast.Attribute(_copy.deepcopy(x), 'acquire', ast.Load()), [], [])))
+                out.append(ast.Try(st.body, [], [], [ast.Expr(ast.Call(ast.Attribute(_copy.deepcopy(x), 'release', ast.Load()), [], []))]))
+            else:
+                out.append(st)
+        body[:] = out
+
+    def inline_single_use(fn, keep):
+        # v = E ; <next statement reads v exactly once, in its head, and nothing else reads v>  ->  E in place of v
+        import copy as _copy
+        params = {a.arg for x in ast.walk(fn) if isinstance(x, ast.arguments)
+                  for a in x.args + x.kwonlyargs + x.posonlyargs + [y for y in (x.vararg, x.kwarg) if y]}
+        declared = {y for x in ast.walk(fn) if isinstance(x, (ast.Global, ast.Nonlocal)) for y in x.names}
+        for _ in range(40):
+            stores, loads = {}, {}
+            for x in ast.walk(fn):
+                if isinstance(x, ast.Name):
+                    (loads if isinstance(x.ctx, ast.Load) else stores).setdefault(x.id, []).append(x)
+                elif isinstance(x, ast.ExceptHandler) and x.name:
+                    stores.setdefault(x.name, []).append(x)
+            changed = False
+            for b in list(blocks(fn)):
+                for i in range(len(b) - 1):
+                    st, nx = b[i], b[i + 1]
+                    if not (isinstance(st, ast.Assign) and len(st.targets) == 1 and isinstance(st.targets[0], ast.Name)):
+                        continue
+                    v = st.targets[0].id
+                    if v in keep or v in params or v in declared or len(stores.get(v, [])) != 1 or \
+                            len(loads.get(v, [])) != 1:
+                        continue
+                    use = loads[v][0]
+                    heads = []
+                    if isinstance(nx, (ast.Expr, ast.Return, ast.Assign, ast.AugAssign)) and getattr(nx, 'value', None) is not None:
+                        heads = [nx.value]
+                    elif isinstance(nx, ast.If):
+                        heads = [nx.test]
+                    elif isinstance(nx, ast.For):
+                        heads = [nx.iter]
+
+                    def uncond(e):
+                        yield e
+                        if isinstance(e, (ast.Lambda, ast.ListComp, ast.SetComp, ast.DictComp, ast.GeneratorExp)):
+                            return
+                        if isinstance(e, ast.BoolOp):
+                            yield from uncond(e.values[0])
+                            return
+                        if isinstance(e, ast.IfExp):
+                            yield from uncond(e.test)
+                            return
+                        for c in ast.iter_child_nodes(e):
+                            if isinstance(c, ast.expr):
+                                yield from uncond(c)
+                            elif isinstance(c, ast.keyword):
+                                yield from uncond(c.value)
+                    if not any(x is use for h in heads for x in uncond(h)):
+                        continue
+                    # only when the use is the first thing evaluated that can have an effect: keep it simple and
+                    # require that E is the only call in the head, or that E has no call
+                    e_calls = has_call(st.value)
+                    others = sum(1 for h in heads for x in ast.walk(h) if isinstance(x, ast.Call))
+                    if e_calls and others > 0 and not (isinstance(heads[0], ast.Call) and others == 1 and
+                                                       any(a is use for a in heads[0].args)):
+                        continue
+
+                    class R(ast.NodeTransformer):
+                        def visit_Name(self, node):
+                            return _copy.deepcopy(st.value) if node is use else node
+                    R().visit(nx)
+                    del b[i]
+                    changed = True
+                    break
+                if changed:
+                    break
+            if not changed:
+                break
+
+    def comp_to_loop(body):
+        # x = [E for T in IT if C]  ->  x = []; for T in IT: if C: x.append(E)      (one generator, x a plain name
+        # that the comprehension does not read)
+        out = []
+        for st in body:
+            if isinstance(st, ast.Assign) and len(st.targets) == 1 and isinstance(st.targets[0], ast.Name) and \
+                    isinstance(st.value, ast.ListComp) and len(st.value.generators) == 1 and \
+                    not st.value.generators[0].is_async and \
+                    st.targets[0].id not in {x.id for x in ast.walk(st.value) if isinstance(x, ast.Name)}:
+                g = st.value.generators[0]
+                x = st.targets[0].id
+                app = ast.Expr(ast.Call(ast.Attribute(ast.Name(x, ast.Load()), 'append', ast.Load()), [st.value.elt], []))
+                inner = [app]
+                for c in reversed(g.ifs):
+                    inner = [ast.If(c, inner, [])]
+                out.append(ast.Assign([ast.Name(x, ast.Store())], ast.List([], ast.Load())))
+                out.append(ast.For(g.target, g.iter, inner, []))
+            else:
+                out.append(st)
+        body[:] = out
+
+    def lambda_to_def(body):
+        out = []
+        for st in body:
+            if isinstance(st, ast.Assign) and len(st.targets) == 1 and isinstance(st.targets[0], ast.Name) and \
+                    isinstance(st.value, ast.Lambda):
+                out.append(ast.FunctionDef(st.targets[0].id, st.value.args, [ast.Return(st.value.body)], [], None,
+                                           None, []))
+            else:
+                out.append(st)
+        body[:] = out
+
+    def unpack_to_index(body):
+        # a, b, c = E  (E a plain name)  ->  a = E[0]; b = E[1]; c = E[2]
+        out = []
+        for st in body:
+            if isinstance(st, ast.Assign) and len(st.targets) == 1 and isinstance(st.targets[0], ast.Tuple) and \
+                    isinstance(st.value, ast.Name) and len(st.targets[0].elts) >= 2 and \
+                    all(isinstance(e, ast.Name) for e in st.targets[0].elts) and \
+                    st.value.id not in {e.id for e in st.targets[0].elts}:
+                for k, e in enumerate(st.targets[0].elts):
+                    out.append(ast.Assign([e], ast.Subscript(ast.Name(st.value.id, ast.Load()), ast.Constant(k), ast.Load())))
+            else:
+                out.append(st)
+        body[:] = out
+
+    class Small(ast.NodeTransformer):
+        # a bundle of one-token respellings
+        def visit_While(self, node):
+            self.generic_visit(node)
+            if isinstance(node.test, ast.Constant) and node.test.value == 1 and node.test.value is not True:
+                node.test = ast.Constant(True)
+            elif isinstance(node.test, ast.Constant) and node.test.value is True:
+                node.test = ast.Constant(1)
+            return node
+
+        def visit_Return(self, node):
+            self.generic_visit(node)
+            if node.value is None:
+                node.value = ast.Constant(None)
+            elif isinstance(node.value, ast.Constant) and node.value.value is None:
+                node.value = None
+            return node
+
+        def visit_If(self, node):
+            self.generic_visit(node)
+            if len(node.orelse) == 1 and isinstance(node.orelse[0], ast.Pass):
+                node.orelse = []
+            return node
+
+        def visit_Delete(self, node):
+            if len(node.targets) > 1:
+                return [ast.Delete([t]) for t in node.targets]
+            return node
+
+        def visit_Compare(self, node):
+            self.generic_visit(node)
+            if len(node.ops) == 1 and isinstance(node.ops[0], (ast.Eq, ast.NotEq)) and \
+                    not has_call(node.left) and not has_call(node.comparators[0]):
+                node.left, node.comparators = node.comparators[0], [node.left]
+            return node
+
+    class DeMorgan(ast.NodeTransformer):
+        def visit_UnaryOp(self, node):
+            self.generic_visit(node)
+            if isinstance(node.op, ast.Not) and isinstance(node.operand, ast.BoolOp):
+                op = ast.And() if isinstance(node.operand.op, ast.Or) else ast.Or()
+                return ast.BoolOp(op, [ast.UnaryOp(ast.Not(), v) for v in node.operand.values])
+            return node
+
+    if kind == 'auto-small-respellings':
+        tree = Small().visit(tree)
+    elif kind == 'auto-de-morgan':
+        tree = DeMorgan().visit(tree)
+    if kind == 'auto-comp-to-loop':
+        for n in ast.walk(tree):
+            if isinstance(n, (ast.FunctionDef, ast.AsyncFunctionDef)):
+                for b in list(blocks(n)):
+                    comp_to_loop(b)
+    elif kind == 'auto-lambda-to-def':
+        for n in ast.walk(tree):
+            if isinstance(n, (ast.FunctionDef, ast.AsyncFunctionDef)):
+                for b in list(blocks(n)):
+                    lambda_to_def(b)
+    elif kind == 'auto-unpack-to-index':
+        for n in ast.walk(tree):
+            if isinstance(n, (ast.FunctionDef, ast.AsyncFunctionDef)):
+                for b in list(blocks(n)):
+                    unpack_to_index(b)
+    if kind == 'auto-guard-clause':
+        for n in ast.walk(tree):
+            if isinstance(n, (ast.FunctionDef, ast.AsyncFunctionDef)):
+                guard_clauses(n)
+    elif kind == 'auto-with-to-acquire':
+        for b in list(blocks(tree)):
+            with_to_acquire(b)
+    elif kind == 'auto-inline-single-use':
+        anchored = _anchored_locals()
+        allk = set()
+        for rel_, fns in anchored.items():
+            for qn, names in fns.items():
+                allk |= set(names)
+        for n in tree.body:
+            for f in ([n] if isinstance(n, ast.FunctionDef) else
+                      [m_ for m_ in n.body if isinstance(m_, ast.FunctionDef)] if isinstance(n, ast.ClassDef) else []):
+                inline_single_use(f, set())
     if kind == 'auto-augassign-expanded':
         tree = AugExpand().visit(tree)
     if kind == 'auto-split-and':
@@ -309,7 +533,9 @@ def _ast_twin(src, kind):
 
 AUTO_TWINS = ('auto-reformat', 'auto-rename-locals', 'auto-flip-if-else', 'auto-compare-spelling',
               'auto-else-after-jump', 'auto-split-and', 'auto-join-nested-if', 'auto-tuple-assign-split',
-              'auto-strip-logging', 'auto-log-at-entry', 'auto-augassign-expanded')
+              'auto-strip-logging', 'auto-log-at-entry', 'auto-augassign-expanded', 'auto-guard-clause',
+              'auto-with-to-acquire', 'auto-inline-single-use', 'auto-comp-to-loop', 'auto-lambda-to-def',
+              'auto-unpack-to-index', 'auto-small-respellings', 'auto-de-morgan')
 
 
 def _auto_twin(args):
